@@ -15,6 +15,7 @@ import (
 	"hash/crc32"
 	"os"
 	"os/exec"
+	"os/signal"
 	"path/filepath"
 	"regexp"
 	"strconv"
@@ -44,10 +45,15 @@ type spec struct {
 	// Straddle (rolling kinds): the goroutines start just before a rotation boundary and keep
 	// logging until N calls are done and the boundary lies 3 ms back; the crash comes at the end (K=0)
 	Straddle bool
+	// Transient (file kinds): before the judged calls one write to the target fails for a reason
+	// that goes away again (the file-size limit of the process is lowered to the file's size for
+	// the duration of one call). A failed write is that call's loss; the calls after it are
+	// written through like before.
+	Transient bool
 }
 
 func (s spec) String() string {
-	return fmt.Sprintf("kind=%s layout=%s G=%d N=%d K=%d mode=%s pad=%d straddle=%v", s.Kind, s.Layout, s.G, s.N, s.K, s.Mode, s.Pad, s.Straddle)
+	return fmt.Sprintf("kind=%s layout=%s G=%d N=%d K=%d mode=%s pad=%d straddle=%v", s.Kind, s.Layout, s.G, s.N, s.K, s.Mode, s.Pad, s.Straddle) + map[bool]string{true: " after-a-transient-write-failure", false: ""}[s.Transient]
 }
 
 // boom and boomArray are field values whose encoding panics (a nil dereference in user code).
@@ -205,6 +211,28 @@ func TestC20_Child(t *testing.T) {
 			e.Fields = []log.Field{log.Int("g", g), log.Int("seq", i), log.String("pad", pad), log.Uint("crc", crc)}
 			app.Append(e)
 			log.PutEvent(e)
+		}
+	}
+	if s.Transient {
+		target := filepath.Join(s.Dir, "out.log")
+		emit(0, 2_000_000, "", crc32.ChecksumIEEE([]byte("0/2000000/"))) // the file exists and is not empty
+		st, err := os.Stat(target)
+		var old syscall.Rlimit
+		if err != nil || syscall.Getrlimit(syscall.RLIMIT_FSIZE, &old) != nil {
+			fmt.Fprintln(os.Stderr, "C20-CHILD-REFRESH-FAILED transient setup", err)
+			os.Exit(8)
+		}
+		signal.Ignore(syscall.SIGXFSZ)
+		lim := old
+		lim.Cur = uint64(st.Size())
+		if err := syscall.Setrlimit(syscall.RLIMIT_FSIZE, &lim); err != nil {
+			fmt.Fprintln(os.Stderr, "C20-CHILD-REFRESH-FAILED transient setup", err)
+			os.Exit(8)
+		}
+		_ = vk.Catch(func() { emit(0, 2_000_001, "x", crc32.ChecksumIEEE([]byte("0/2000001/x"))) }) // fails with EFBIG; not acknowledged
+		if err := syscall.Setrlimit(syscall.RLIMIT_FSIZE, &old); err != nil {
+			fmt.Fprintln(os.Stderr, "C20-CHILD-REFRESH-FAILED transient restore", err)
+			os.Exit(8)
 		}
 	}
 	var from, until time.Time
@@ -434,6 +462,9 @@ func TestC20_CrashPoints(t *testing.T) {
 				s.Straddle, s.K = true, 0
 				s.G = rapid.SampledFrom([]int{4, 2, 8, 3}).Draw(t, l+"G2")
 				s.N = min(s.N, 30)
+			}
+			if s.Kind == "file" || s.Kind == "filelogger" || s.Kind == "file+loggerlayout" {
+				s.Transient = rapid.IntRange(0, 2).Draw(t, l+"transient") == 0
 			}
 			specs = append(specs, s)
 		}
